@@ -399,6 +399,73 @@ fn replay_case(case: &Value, _env: &Env) -> CaseResult {
     total_on("cases", case["expression"].as_str().unwrap_or(""), &[case["document"].as_str().unwrap_or("null")], &mut st)
 }
 
+/// Totality on *data*: generated (typed, untyped and mutated) expressions over
+/// documents that hold anything JSON can: arbitrary doubles, clusters of values
+/// that are a unit in the last place apart or the same number in several
+/// spellings (tens to hundreds of them in one array), strings sharing long
+/// prefixes, nulls everywhere.  Only "no panic" is checked here.
+fn data_totality(src: &mut Src, st: &mut Stats, _env: &Env) -> CaseResult {
+    use crate::gen_doc::{gen_doc, gen_json, near_value_opt, DocOpts};
+    use crate::model::J;
+    let o = DocOpts { max_depth: 3, max_width: 4, wild_numbers: true, ..DocOpts::default() };
+    let seed_val = match src.below(5) {
+        0 => J::f([0.3, 1.0, 1e22, 100.0, 1.0 / 3.0, 5e-324, 1.7976931348623157e308, -2.5e15][src.below(8)]),
+        1 => J::f(f64::from_bits(src.u64())),
+        2 => J::Str(crate::gen_doc::gen_string(src)),
+        _ => gen_json(src, 2, &o),
+    };
+    let seed_val = match seed_val {
+        J::Num(crate::model::N::F(f)) if !f.is_finite() => J::int(0),
+        other => other,
+    };
+    let mut cluster = vec![seed_val];
+    for _ in 0..src.below(7) {
+        let base = cluster[src.below(cluster.len())].clone();
+        cluster.push(near_value_opt(&base, src, true));
+    }
+    let n = match src.below(4) {
+        0 => src.below(6),
+        1 => 18 + src.below(16),
+        2 => 21 + src.below(80),
+        _ => src.size(300),
+    };
+    let xs: Vec<J> = (0..n).map(|_| cluster[src.below(cluster.len())].clone()).collect();
+    let objs: Vec<J> = xs
+        .iter()
+        .enumerate()
+        .map(|(i, v)| J::Obj([("i".to_string(), J::int(i as i64)), ("k".to_string(), v.clone()), ("n".to_string(), v.clone()), ("s".to_string(), J::Str(format!("s{}", i % 3)))].into_iter().collect()))
+        .collect();
+    let mut doc = match gen_doc(src, &o) {
+        J::Obj(m) => m,
+        _ => Default::default(),
+    };
+    doc.insert("xs".to_string(), J::Arr(xs.clone()));
+    doc.insert("nums".to_string(), J::Arr(xs));
+    doc.insert("objs".to_string(), J::Arr(objs));
+    let dt = J::Obj(doc).to_json();
+    let text = match src.below(6) {
+        0 | 1 => src
+            .pick(&[
+                "sort(xs)", "sort_by(objs, &k)", "max(xs)", "min(xs)", "max_by(objs, &k)", "min_by(objs, &k)", "sort_by(objs, &k)[*].i", "sum(xs)", "avg(xs)", "reverse(sort(xs))", "sort(xs)[0]", "xs[?@ < xs[0]]", "xs == xs",
+                "contains(xs, xs[0])", "join(',', xs)", "sort_by(objs, &to_string(k))", "sort(map(&to_string(@), xs))", "objs[?k >= `0`].i", "merge(objs[0], objs[-1])", "xs[*] == xs[::-1]", "to_string(xs)", "map(&abs(@), xs)",
+                "map(&ceil(@), xs)", "map(&floor(@), xs)", "map(&to_number(to_string(@)), xs)", "sort_by(objs, &abs(k))", "max_by(objs, &length(to_string(k)))", "keys(objs[0])", "length(xs)", "not_null(xs[0], xs[1])",
+            ])
+            .to_string(),
+        2 => {
+            let d = 1 + src.below(3);
+            let t = crate::gen_typed::gen_typed(src, d);
+            crate::props::c01::spell_tree(&t, src, st).map(|x| x.0).unwrap_or_else(|| "@".into())
+        }
+        3 => crate::syn::gen_sentence(src, st, 3).unwrap_or_else(|| "@".into()),
+        4 => {
+            let a = crate::syn::gen_sentence(src, st, 2).unwrap_or_else(|| "a".into());
+            crate::syn::mutate(&a, "xs[0]", src).0
+        }
+        _ => crate::syn::gen_failing_text(src, st),
+    };
+    total_on("data-totality", &text, &[&dt], st)
+}
+
 pub fn property() -> Property {
     Property {
         id: "C05",
@@ -413,6 +480,7 @@ pub fn property() -> Property {
             Sub::Bytes(BytesSub { name: "strings", f: strings, max_len: 1500, quick: Budget { threads: 8, cases: 24000 }, thorough: Budget { threads: 16, cases: 400_000 }, keep_unreproducible: false }),
             Sub::Bytes(BytesSub { name: "arithmetic", f: arithmetic, max_len: 64, quick: Budget { threads: 8, cases: 60000 }, thorough: Budget { threads: 16, cases: 1_000_000 }, keep_unreproducible: false }),
             Sub::Bytes(BytesSub { name: "builtin-calls", f: builtin_calls, max_len: 32, quick: Budget { threads: 8, cases: 30000 }, thorough: Budget { threads: 16, cases: 300_000 }, keep_unreproducible: false }),
+            Sub::Bytes(BytesSub { name: "data-totality", f: data_totality, max_len: 2500, quick: Budget { threads: 8, cases: 8000 }, thorough: Budget { threads: 16, cases: 300_000 }, keep_unreproducible: false }),
             Sub::Bytes(BytesSub { name: "api-totality", f: api_totality, max_len: 300, quick: Budget { threads: 4, cases: 12000 }, thorough: Budget { threads: 16, cases: 100_000 }, keep_unreproducible: false }),
             Sub::Custom(CustomSub { name: "ladder", run: ladder, replay: replay_ladder }),
             Sub::Custom(CustomSub { name: "cases", run: fixed_cases, replay: replay_case }),
